@@ -6619,7 +6619,8 @@ ZSTD_copySequencesToSeqStoreExplicitBlockDelim(ZSTD_CCtx* cctx,
         DEBUGLOG(6, "Storing sequence: (of: %u, ml: %u, ll: %u)", offBase, matchLength, litLength);
         if (cctx->appliedParams.validateSequences) {
             seqPos->posInSrc += litLength;   /* the offset may only reach what is decoded when the match starts */
-            FORWARD_IF_ERROR(ZSTD_validateSequence(offBase, matchLength, cctx->appliedParams.cParams.minMatch, seqPos->posInSrc,
+            /* validate the offset as supplied : once folded into a repcode it would escape the bound */
+            FORWARD_IF_ERROR(ZSTD_validateSequence(OFFSET_TO_OFFBASE(inSeqs[idx].offset), matchLength, cctx->appliedParams.cParams.minMatch, seqPos->posInSrc,
                                                 cctx->appliedParams.cParams.windowLog, dictSize, ZSTD_hasExtSeqProd(&cctx->appliedParams)),
                                                 "Sequence validation failed");
             seqPos->posInSrc += matchLength;
@@ -6754,7 +6755,8 @@ ZSTD_copySequencesToSeqStoreNoBlockDelim(ZSTD_CCtx* cctx, ZSTD_sequencePosition*
 
         if (cctx->appliedParams.validateSequences) {
             seqPos->posInSrc += litLength;   /* the offset may only reach what is decoded when the match starts */
-            FORWARD_IF_ERROR(ZSTD_validateSequence(offBase, matchLength, cctx->appliedParams.cParams.minMatch, seqPos->posInSrc,
+            /* validate the offset as supplied : once folded into a repcode it would escape the bound */
+            FORWARD_IF_ERROR(ZSTD_validateSequence(OFFSET_TO_OFFBASE(rawOffset), matchLength, cctx->appliedParams.cParams.minMatch, seqPos->posInSrc,
                                                    cctx->appliedParams.cParams.windowLog, dictSize, ZSTD_hasExtSeqProd(&cctx->appliedParams)),
                                                    "Sequence validation failed");
             seqPos->posInSrc += matchLength;
